@@ -142,7 +142,16 @@ def gen_score(rng: random.Random) -> dict:
                        "share": rng.random() < 0.5})
         now += dur
     via = "pdict" if (tl_tpb == 480 and rng.random() < (0.7 if long_piece else 0.2)) else "timeline"
-    return {"kind": "score", "tl_tpb": tl_tpb, "events": events, "via": via}
+    case = {"kind": "score", "tl_tpb": tl_tpb, "events": events, "via": via}
+    if via == "timeline" and not long_piece and rng.random() < 0.3:
+        # other requests to the same device between the notes (a controller sweep, program changes): whatever the file device
+        # does with them, the notes keep their times.  The extra track ends no later than the notes do.
+        cdur = step * rng.choice([1, 2, 3, 5, 7, 11])
+        n_cc = min(now // cdur, 300)
+        if n_cc >= 1:
+            case["controllers"] = {"kind": rng.choice(["control", "control", "program"]), "dur": cdur, "count": n_cc,
+                                   "channel": rng.choice([0, 0, rng.randint(0, 15)]), "first": rng.choice([True, False])}
+    return case
 
 
 NON_NOTE = ["control_change", "pitchwheel", "program_change", "aftertouch", "polytouch", "sysex",
@@ -193,6 +202,12 @@ def gen_foreign(rng: random.Random) -> dict:
     leave_open = rng.random() < 0.03
     zero_len = rng.random() < 0.08
     big = rng.random() < 0.1
+    # a pedal note / drone: one note held under a long run of other notes (more than the 128 pitches there are), closed last
+    pedal = rng.random() < 0.04
+    pedal_pitch = None
+    if pedal:
+        n_notes = rng.choice([135, 150, 200, 270])
+        p_other, p_same_pitch, leave_open, big = min(p_other, 0.3), 0, False, False
 
     def delta():
         if rng.random() < p_zero_delta:
@@ -213,7 +228,8 @@ def gen_foreign(rng: random.Random) -> dict:
             msgs.append(m)
             continue
         can_start = started < n_notes
-        if can_start and (not open_p or rng.random() < 0.5):
+        closable = [p for p in open_p if p != pedal_pitch] if (pedal and started < n_notes) else open_p
+        if can_start and (not closable or rng.random() < 0.5):
             if open_p and rng.random() < p_same_pitch:
                 pitch = rng.choice(open_p)
             else:
@@ -223,12 +239,15 @@ def gen_foreign(rng: random.Random) -> dict:
             msgs.append({"type": "note_on", "note": pitch, "velocity": rng.choice([1, 127, rng.randint(1, 127)]),
                          "channel": rng.randint(0, 15) if rng.random() < 0.3 else 0, "time": d})
             open_p.append(pitch)
+            if pedal and started == 0:
+                pedal_pitch = pitch
             started += 1
             force_zero = zero_len and rng.random() < 0.5
         elif open_p:
             if leave_open and started >= n_notes and rng.random() < 0.5:
                 break
-            pitch = rng.choice(open_p)
+            others = [p for p in open_p if p != pedal_pitch]
+            pitch = rng.choice(others if (pedal and others) else closable)
             open_p.remove(pitch)
             d = 0 if force_zero else delta()
             force_zero = False
@@ -419,7 +438,18 @@ def run_score_impl(case, tmpdir):
         clock = iso.DummyClock(ticks_per_beat=case["tl_tpb"])
         tl = iso.Timeline(output_device=dev, clock_source=clock)
         tl.stop_when_done = True
+        cc = case.get("controllers")
+        if cc:
+            extra = {"duration": cc["dur"] / FILE_TPB, "channel": cc["channel"]}
+            if cc["kind"] == "control":
+                extra.update(control=7, value=iso.PSequence([(11 * j) % 128 for j in range(cc["count"])], 1))
+            else:
+                extra.update(program_change=iso.PSequence([(5 * j) % 128 for j in range(cc["count"])], 1))
+            if cc["first"]:
+                tl.schedule(extra)
         tl.schedule(ev)
+        if cc and not cc["first"]:
+            tl.schedule(extra)
         try:
             clock.run()
         except StopIteration:
@@ -430,6 +460,18 @@ def run_score_impl(case, tmpdir):
     msgs = list(mf.tracks[0]) if mf.tracks else []
     if msgs and msgs[-1].type == "end_of_track" and msgs[-1].time == 0:
         msgs = msgs[:-1]              # appended by mido on save, not by isobar
+    if case.get("controllers"):
+        # the property speaks of the notes: messages of other kinds (none on this tree: the file device drops them) are set
+        # aside and their delta times carried over to the next note message
+        kept, carry = [], 0
+        for m in msgs:
+            if m.type in ("note_on", "note_off"):
+                kept.append(m.copy(time=m.time + carry))
+                carry = 0
+            else:
+                carry += m.time
+        out["other_messages"] = len(msgs) - len(kept)
+        msgs = kept
     out["file"] = [tok_of_mido(m) for m in msgs]
     out["msgs"] = [(m.type, getattr(m, "note", None), getattr(m, "velocity", None), getattr(m, "channel", None), m.time)
                    for m in msgs]
@@ -853,6 +895,8 @@ def _judge(ctx, kind, cases, state):
             overl = any(v["len"] > ev["dur"] for ev in case["events"] for v in ev["voices"])
             rests = any(not [v for v in ev["voices"] if v["vel"] > 0 and v["len"] > 0] for ev in case["events"])
             ctx.count("score:tl_tpb:%d" % case["tl_tpb"], "score:via:%s" % case["via"], "score:events:%d" % len(case["events"]))
+            if case.get("controllers"):
+                ctx.count("score:with-%s-track" % case["controllers"]["kind"])
             ctx.count("score:class:%s" % ("with-rests-or-silent-voices(correspondence only)" if rests or any(
                 v["vel"] == 0 or v["len"] == 0 for ev in case["events"] for v in ev["voices"]) else "theorem-domain"))
             if any(n > 1 for n in nvo):
@@ -865,6 +909,8 @@ def _judge(ctx, kind, cases, state):
             sel = next((m for m in impl["msgs"] if any(x[0] == "note_on" for x in m)), [])
             overlap, has_open, nontriv = foreign_features(sel)
             ctx.count("foreign:tpb:%d" % case["tpb"], "foreign:tracks:%d" % len(case["tracks"]))
+            if sum(1 for t in case["tracks"] for m in t if m["type"] == "note_on" and m.get("velocity", 0) > 0) > 128:
+                ctx.count("foreign:more-than-128-notes(pedal note held throughout)")
             if overlap:
                 ctx.count("foreign:same-pitch-overlap(correspondence only)")
             if has_open:
